@@ -210,6 +210,14 @@ def plan(seed, tier="quick", index=0):
             # raw scripts whose bytes look enough like a Bech32 string (single case, contain '1')
             # to get past the first checks of the address classifiers
             n, m, keys_ = 1, 1, [rng.choice(CONFUSABLE_KEYS)]
+        multi = [x for x in idents if x["kind"] in ("multisig", "p2sh", "p2wsh", "p2sh-p2wsh") and x["kind"] != kind]
+        if kind in ("multisig", "p2sh", "p2wsh", "p2sh-p2wsh") and multi and rng.random() < 0.5:
+            # the same wallet keys behind another address type: identical redeem / witness script bytes
+            src = rng.choice(multi)
+            keys_, m = list(src["keys"]), src["m"]
+        single = [x for x in idents if len(x["keys"]) == 1 and x["kind"] != kind]
+        if len(keys_) == 1 and kind not in ("multisig",) and single and rng.random() < 0.3:
+            keys_ = list(rng.choice(single)["keys"])
         idents.append({"kind": kind, "keys": keys_, "m": m})
     clean = stratum in ("clean", "concurrent")
     funding = []
